@@ -53,6 +53,9 @@ Refusal(x, cur, ctx) ==
      THEN {V("C06", ctx.at, "a row of the declared shape was refused in a text resultset")}
   ELSE IF o.op = "end_row" /\ (nc = 0 \/ Len(cur.cells) = nc)
      THEN {V("C03", ctx.at, "end_row refused for a row of the declared shape")}
+  ELSE IF o.op \in {"finish", "finish_one", "finish_error"} /\ (nc = 0 \/ Len(cur.cells) = 0 \/ Len(cur.cells) = nc)
+     THEN {V("C03", ctx.at, o.op \o " refused although no incomplete row is pending")}
+          \cup (IF o.op = "finish_error" THEN {V("C13", ctx.at, "an error reported by the shim was refused by the writer instead of reaching the client")} ELSE {})
   ELSE {}
 
 RECURSIVE Den(_, _, _, _, _, _)
